@@ -52,6 +52,8 @@ def run(ctx):
                                                           "-varlen", "0", "-failing"], 2))
         stages.append(("isolate-hll", "isolate-hll", ["-seed", seed, "-logs", "2", "-len", "120", "-dense", "0",
                                                       "-varlen", "0", "-hllmix", "-engines", "pebble"], 2))
+        stages.append(("isolate-syncer", "isolate-syncer", ["-seed", seed, "-logs", "1", "-len", "60", "-dense", "0", "-varlen", "0",
+                                                            "-syncer", "1", "-syncer-nonmono", "-engines", "pebble"], 1))
     else:
         stages.append(("general", "general", ["-seed", seed, "-logs", "45", "-len", "110", "-full", "-engines", "pebble,mem"], 8))
         stages.append(("general2", "general", ["-seed", str(ctx.seed + 1000), "-logs", "30", "-len", "40", "-full",
@@ -63,11 +65,16 @@ def run(ctx):
                                                           "-varlen", "0", "-failing"], 2))
         stages.append(("isolate-hll", "isolate-hll", ["-seed", seed, "-logs", "8", "-len", "120", "-dense", "0",
                                                       "-varlen", "0", "-hllmix"], 2))
+        stages.append(("isolate-syncer", "isolate-syncer", ["-seed", seed, "-logs", "4", "-len", "80", "-dense", "0", "-varlen", "0",
+                                                            "-syncer", "1", "-syncer-nonmono"], 2))
+        # real raft: 3 replicas, live / replay-restarted / snapshot-rejoined (stored data only)
+        stages.append(("realraft", "general", ["-seed", seed, "-scenarios", "4", "-eng", "pebble", "-policy", "compact"], 1, "repsim"))
+        stages.append(("realraft-local", "general", ["-seed", str(ctx.seed + 77), "-scenarios", "2", "-eng", "pebble", "-policy", "local"], 1, "repsim"))
 
     def driver_stage(st):
-        name, label, args, parts = st
-        summ, files = D.drive(ctx, zr, "detsim", name, args, parts)
-        return st, summ, files
+        name, label, args, parts = st[:4]
+        summ, files = D.drive(ctx, zr, st[4] if len(st) > 4 else "detsim", name, args, parts)
+        return st[:4], summ, files
 
     res = V.parallel(lambda x: model_stage(x) if x == "model" else driver_stage(x), ["model"] + stages, n=6)
     for item in res[1:]:
@@ -141,6 +148,7 @@ def run(ctx):
         logs=stats["logs"], runs=stats["runs"], apply_groups=stats["groups"], replies_compared=stats["replies"],
         dump_keys_compared=stats["dumpkeys"], events_validated=stats["events"],
         checkpoint_restores=stats["restores"], reopens=stats["reopens"],
+        real_raft_scenarios=sum(1 for r in stats["driver_runs"] if r["stage"].startswith("realraft") for _ in range(r.get("logs", 0))),
         straddle_logs=stats["straddle_logs"], straddle_rounds_too_late=stats["straddle_late"],
         mismatching_runs=stats["mismatches"], known_divergent_replies=stats.get("known_divergent_replies", 0), panics=stats["panics"], hung_runs=stats.get("hung", 0),
         commands_in_logs=stats["commands"], driver_runs=stats["driver_runs"],
@@ -166,6 +174,11 @@ def run(ctx):
         "out is only a SET on a key PFADDed earlier in the log without a DEL in between (stored data diverges on the "
         "unchanged tree); the REPLY VALUE of DEL on an HLL key is marked by the driver (kd) and reported as the known "
         "finding without ending the run; stored data (after a final checkpoint that flushes the cache) stays strict",
+        "open finding C07-syncer-conflict-filter: in the general corpus an entry is typed FromClusterSyncer only if the "
+        "live conflict filter lets it through on every replica (single command of a family with a conflict handler, "
+        "strictly increasing source-cluster log time older than the process); everything else is the isolate stage",
+        "real-raft stage (thorough): stored data of leader, replay-restarted follower and snapshot-rejoined follower "
+        "compared after a common applied index; replies exist only on the leader and are not compared there",
         "open finding C07-batch-abort-on-apply-error, narrowed: batchable commands that fail in their apply handler "
         "are in the general corpus, but only directly after a non-batchable command (first of their write batch "
         "under every grouping); a failing one WITH batch predecessors is produced by the isolate stage only; the "
